@@ -6,7 +6,7 @@ from ..core import AnalysisError, norm, walk_no_nested, calls_in, Func
 
 META = {
     'design_ref': 'DESIGN.md §5 C11',
-    'technique': 'effect analysis over the class call graph for the changed-flag discipline; shape-case abstract interpretation of remove / replace / append and of value references on symbolic token lists (eleven layouts, duplicates, after-edit state), compared at value level with a reference list model; regular-language checks for the two list tokenizers (coverage of every line by the whole function incl. special cases, group tiling, path-based emission of every group once in order, separator never inside a word); interpretation of the value-line wrapper on symbolic lines of every shape and position (no exception, conservation, comment classification, text handed to the list tokenizer) and of the view constructor on item-less token lists; CFG validate-before-commit rule for the write-back; frame rule (no persistent writes) on the read path of a list view; one-computation-per-memo-slot rule; line-primitive rule; write-back scenarios for a re-parse with two fields / two paragraphs and for a list without values',
+    'technique': 'effect analysis over the class call graph for the changed-flag discipline; shape-case abstract interpretation of remove / replace / append and of value references on symbolic token lists (eleven layouts, duplicates, after-edit state), compared at value level with a reference list model; regular-language checks for the two list tokenizers (coverage of every line by the whole function incl. special cases, group tiling, path-based emission of every group once in order, separator never inside a word); interpretation of the value-line wrapper on symbolic lines of every shape and position (no exception, conservation, comment classification, text handed to the list tokenizer) and of the view constructor on item-less token lists; CFG validate-before-commit rule for the write-back; frame rule (no persistent writes) on the read path of a list view; one-computation-per-memo-slot rule; line-primitive rule; write-back scenarios for a re-parse with two fields / two paragraphs and for a list without values; layouts that end on a comment line',
     'level_text': 'Static decision: every editing entry point marks the view as changed and nothing else does, so an unedited view never '
                   'touches the document; removing, replacing or appending a value (directly or through a reference) leaves exactly the '
                   'reference list of values in a well-formed token list, for layouts with and without leading blanks, separators, comment '
@@ -205,7 +205,9 @@ def generated_layouts():
 
 def r5_edits(rep, src, tier='quick'):
     layouts = [('V S W V S W V', False), ('V S V', False), ('W V S W V', False), ('W V P V P V', True), ('V P V', True), ('W V', False),
-               ('W V S N C K V S N K V', False), ('V S N C K V', False), ('W V S W V S', False), ('P N K V P V', True), ('P N C K V N K V', True)]
+               ('W V S N C K V S N K V', False), ('V S N C K V', False), ('W V S W V S', False), ('P N K V P V', True), ('P N C K V N K V', True),
+               # a list that ends on a comment line (what append_comment() leaves behind): the next value still needs its separator
+               ('W V S W V N C', False), ('W V P V N C', True), ('W V S W V S N C', False)]
     if tier == 'thorough':
         layouts = layouts + [l for l in generated_layouts() if l not in layouts]
     m_site = '%s:%s' % (PM, CLS)
@@ -339,9 +341,9 @@ def r5_edits(rep, src, tier='quick'):
         if got != vals + ['new']:
             problems.append('the list of values is %s, the reference model says %s' % (got, vals + ['new']))
         # a separator must stand between the previous last value and the new one
-        sepk = 'P' if space_sep else 'S'
+        sepk = 'PNK' if space_sep else 'S'          # (in a blank-separated list a line break with its continuation marker separates as well)
         vpos = [i for i, k in enumerate(kinds) if k == 'V']
-        if len(vpos) >= 2 and sepk not in kinds[vpos[-2]:vpos[-1]]:
+        if len(vpos) >= 2 and not any(k_ in sepk for k_ in kinds[vpos[-2] + 1:vpos[-1]]):
             problems.append('no separator between the previous last value and the appended one (tokens %s): the two values read back as one' % kinds)
         if not heap.objs[view.name]['_changed']:
             problems.append('the view is not marked as changed')
